@@ -27,6 +27,8 @@ func init() {
 			"every cycle of every unbounded loop of the recursive-descent parser consumes a real (known non-EOF) token before it returns to the loop head, or leaves the loop (consume / consume-or-report summaries with and without a peeked token, report.HasErrors() edges). " +
 			"Not decided: absence of panics on arbitrary bytes, positions inside the input, print∘parse round-trip equality as values, limit accounting (value level), depth of recursion.",
 		Mutants: []Mutant{
+			{Name: "an anonymous query with a description is printed in shorthand form (reverts the F97 fix)", File: "v2/pkg/astprinter/astprinter.go", Rule: "C05-R14", Key: "printVisitor.EnterOperationDefinition/description-followed-by-a-head",
+				Old: "if hasName || hasVariables || hasDirectives || hasDescription {", New: "if hasName || hasVariables || hasDirectives {"},
 			{Name: "the exponent sign is not looked for when the number has no fraction (reverts the F82 fix)", File: "v2/pkg/lexer/lexer.go", Rule: "C05-R13", Key: "Lexer.readFloat/exponent-sign-before-digits",
 				Old: "\tif hasReadExponentAlready {\n\t\t// ExponentPart is", New: "\tif hasReadExponentAlready && tok == nil {\n\t\t// ExponentPart is"},
 			{Name: "after a description any token is taken as the name of an input value (reverts the F62 fix)", File: "v2/pkg/astparser/parser.go", Rule: "C05-R12", Key: "Parser.parseInputValueDefinition/name-from-ident-token",
@@ -49,7 +51,7 @@ func init() {
 			{Name: "closing brace of a schema definition written blindly (the repaired defect F22)", File: "v2/pkg/astprinter/astprinter.go", Rule: "C05-R3", Key: "printer-siblings-content/Leave:Schema",
 				Old: "\tif len(p.document.SchemaDefinitions[ref].RootOperationTypeDefinitions.Refs) == 0 {\n\t\t// the opening brace is written by the first root operation type definition\n\t\tp.write(literal.LBRACE)\n\t}\n", New: ""},
 			{Name: "shorthand query chosen although the operation has directives (the repaired defect F21)", File: "v2/pkg/astprinter/astprinter.go", Rule: "C05-R7", Key: "EnterOperationDefinition/query-keyword-guard",
-				Old: "\t\tif hasName || hasVariables || hasDirectives {", New: "\t\t_ = hasDirectives\n\t\tif hasName || hasVariables {"},
+				Old: "\t\tif hasName || hasVariables || hasDirectives || hasDescription {", New: "\t\t_ = hasDirectives\n\t\tif hasName || hasVariables || hasDescription {"},
 			{Name: "SimpleWalker no longer visits the directives of a schema definition (seeded change C05-12, sibling view)", File: "v2/pkg/astvisitor/simplevisitor.go", Rule: "C05-R6", Key: "walker-siblings/walkSchemaDefinition",
 				Old: "\tif w.document.SchemaDefinitions[ref].HasDirectives {\n\t\tfor _, i := range w.document.SchemaDefinitions[ref].Directives.Refs {\n\t\t\tw.walkDirective(i)\n\t\t}\n\t}\n", New: ""},
 			{Name: "list value loop no longer leaves on a reported error (hangs on a truncated list)", File: "v2/pkg/astparser/parser.go", Rule: "C05-R5", Key: "Parser.parseValueList/loop1",
@@ -99,6 +101,7 @@ func runC05(r *fw.Run) {
 	defer c05ParserRecursionIsBounded(r)
 	defer c05NamesComeFromIdentTokens(r)
 	defer c05ExponentSignOnEveryPath(r)
+	defer c05PrintedDescriptionIsFollowedByTheDefinitionHead(r)
 
 	// ---- R1 loop progress ------------------------------------------------------------------------
 	r.Rule("C05-R1", "every unbounded loop of the lexer, the tokenizer and the Cache-Control lexer/parser consumes input on each cycle back to its head and has an exit guarded by an end-of-input test")
@@ -2617,4 +2620,152 @@ func c05ExponentSignOnEveryPath(r *fw.Run) {
 		analyse(fi, nil)
 	}
 	r.Expect("C05-R13", "paths from an exponent indicator to a digit test", n, 2)
+}
+
+// c05PrintedDescriptionIsFollowedByTheDefinitionHead (R14): the parser accepts a description only in front of the keyword
+// of a definition. A printer callback that prints a description and then, on some path, writes nothing but white space
+// before it returns leaves the description in front of whatever comes next — for an anonymous query the `{` of the
+// shorthand form, which does not re-parse. Rule (a contradiction inside one function: it prints the description under a
+// test and forgets the test when it decides about the keyword): in every callback of the printer that calls
+// PrintDescription, each exit is reached after something other than a white-space literal was written following the
+// description (a keyword, or the name a field or enum value starts with), or after the "description is defined" test — the
+// field, or a local assigned from it — was answered false and no description printed since (one correlated fact).
+func c05PrintedDescriptionIsFollowedByTheDefinitionHead(r *fw.Run) {
+	p := r.Prog
+	r.Rule("C05-R14", "a printer callback that prints a description writes, on every path that does not establish 'no description', a non-white-space literal (the head of the definition) before it returns")
+	white := map[string]bool{"LINETERMINATOR": true, "SPACE": true, "TAB": true, "COMMA": true}
+	n := 0
+	for _, fi := range p.Funcs("astprinter") {
+		info := fi.Info()
+		calls := false
+		fw.WalkAll(fi.Decl.Body, func(nd ast.Node) bool {
+			if c, ok := nd.(*ast.CallExpr); ok {
+				if fn := fw.Callee(info, c); fn != nil && fn.Name() == "PrintDescription" {
+					calls = true
+				}
+			}
+			return true
+		})
+		if !calls || fw.RecvNameOfFunc(fi.Obj) == "" {
+			continue
+		}
+		// the test: …Description.IsDefined, or a local assigned from it
+		isDefinedSel := func(e ast.Expr) bool {
+			fv, sel := fw.Field(info, e)
+			if fv == nil || fv.Name() != "IsDefined" {
+				return false
+			}
+			_, tn := fw.FieldOwner(info, sel)
+			return tn == "Description"
+		}
+		locals := map[types.Object]bool{}
+		fw.WalkAll(fi.Decl.Body, func(nd ast.Node) bool {
+			if as, ok := nd.(*ast.AssignStmt); ok && len(as.Lhs) == 1 && len(as.Rhs) == 1 && isDefinedSel(as.Rhs[0]) {
+				if id, isID := as.Lhs[0].(*ast.Ident); isID {
+					locals[info.ObjectOf(id)] = true
+				}
+			}
+			return true
+		})
+		isTest := func(e ast.Expr) bool {
+			e = ast.Unparen(e)
+			if isDefinedSel(e) {
+				return true
+			}
+			id, ok := e.(*ast.Ident)
+			return ok && locals[info.ObjectOf(id)]
+		}
+		// the printer's writers: methods of the visitor with one []byte parameter and no result
+		isWriter := func(fn *types.Func) bool {
+			sig := fn.Type().(*types.Signature)
+			if fw.RecvNameOfFunc(fn) != fw.RecvNameOfFunc(fi.Obj) || sig.Params().Len() != 1 || sig.Results().Len() != 0 {
+				return false
+			}
+			sl, isSl := sig.Params().At(0).Type().Underlying().(*types.Slice)
+			return isSl && types.Identical(sl.Elem(), types.Typ[types.Byte])
+		}
+		ok := true
+		at := fi.Decl.Pos()
+		in := fw.NewInterp(fi)
+		in.H = fw.Hooks{
+			Lit: func(l *ast.FuncLit, ctx fw.LitCtx, st *fw.State) fw.LitMode { return fw.LitSkip },
+			Cond: func(e ast.Expr, branch bool, st *fw.State) {
+				a := fw.Atom(info, e, branch)
+				if (a.Kind == "True" || a.Kind == "False") && isTest(a.X) {
+					if a.Kind == "False" {
+						st.Set("settled")
+					}
+				}
+			},
+			Case: func(tag ast.Expr, vals []ast.Expr, match bool, st *fw.State) {
+				// a kind outside the enumeration (…Unknown) is not produced by the parser: the path on which every named
+				// constant of the tag's type was excluded is no verdict
+				if match || len(vals) == 0 {
+					return
+				}
+				nt, isNamed := info.TypeOf(tag).(*types.Named)
+				if !isNamed || nt.Obj().Pkg() == nil {
+					return
+				}
+				for _, v := range vals {
+					if k := fw.ConstObj(info, v); k != nil {
+						st.Set("not:" + k.Name())
+					}
+				}
+				all := true
+				for _, name := range fw.ConstNames(nt.Obj().Pkg(), nt) {
+					if !strings.HasSuffix(name, "Unknown") && !st.Must("not:"+name) {
+						all = false
+					}
+				}
+				if all {
+					st.Set("settled")
+				}
+			},
+			Node: func(nd ast.Node, st *fw.State) {
+				c, isC := nd.(*ast.CallExpr)
+				if !isC {
+					return
+				}
+				fn := fw.Callee(info, c)
+				if fn == nil {
+					return
+				}
+				if fn.Name() == "PrintDescription" {
+					st.Kill("settled")
+					return
+				}
+				if isWriter(fn) && len(c.Args) == 1 {
+					// anything but a white-space literal: a keyword, or the name a field / enum value starts with
+					isWhite := false
+					if sel, isSel := ast.Unparen(c.Args[0]).(*ast.SelectorExpr); isSel {
+						if v, isVar := info.Uses[sel.Sel].(*types.Var); isVar && v.Pkg() != nil && strings.HasSuffix(v.Pkg().Path(), "/lexer/literal") && white[v.Name()] {
+							isWhite = true
+						}
+					}
+					if !isWhite {
+						st.Set("settled")
+					}
+				}
+			},
+			Exit: func(ret *ast.ReturnStmt, lit *ast.FuncLit, st *fw.State) {
+				if lit != nil || !in.Final() {
+					return
+				}
+				if !st.Must("settled") {
+					ok = false
+					if ret != nil {
+						at = ret.Pos()
+					} else {
+						at = fi.Decl.End()
+					}
+				}
+			},
+		}
+		in.Run(nil)
+		n++
+		r.Check(ok, "C05-R14", fi.Name()+"/description-followed-by-a-head", p.Pos(at), "every path of "+fi.Name()+" that may have printed a description writes the head of the definition",
+			fi.Name()+" returns on a path that may have printed a description and wrote only white space after it: `\"the description\" query { a }` is printed as `\"the description\"<LF>{a}`, and the parser, which accepts a description only in front of a keyword, rejects it (`got: LBRACE want one of: [IDENT]`) — the printed text does not re-parse")
+	}
+	r.Expect("C05-R14", "printer callbacks that print a description", n, 1)
 }
